@@ -140,6 +140,7 @@ class Env(object):
         self.frames_seen = 0
         self.who = None
         self.rx_raw = bytearray() if cfg.get('keep_rx') else None
+        self.rx_at_fault = None
         self.open_by = {}
         self.mutated = False
         self.policy_flip = 0
@@ -213,6 +214,8 @@ class Env(object):
         self.sticky = None
 
     def _fault(self, kind, timeout):
+        if self.rx_at_fault is None and self.rx_raw is not None:
+            self.rx_at_fault = len(self.rx_raw)        # what the device had received when the first injected fault fired
         if kind == 'timeout':
             from adb_shell.exceptions import TcpTimeoutException
             self.clock.advance(timeout or 0)
